@@ -3,6 +3,8 @@ package props
 import (
 	"fmt"
 	"go/token"
+	"go/types"
+	"sort"
 	"strings"
 
 	"golang.org/x/tools/go/ssa"
@@ -145,6 +147,94 @@ func runC18(c *eng.Ctx) {
 			[]string{smgrT + ".onStorageNodeFailure", smgrT + ".onStorageNodeStartup"}, 2)
 		owner(c, "call of stateManager.processEvent", eng.AnyCallTo(smgrT+".processEvent"), []string{smgrT + ".consumeEvent"}, 1)
 		owner(c, "go consumeEvent", eng.AnyCallTo(smgrT+".consumeEvent"), []string{"coordinator/master.NewStateManager"}, 1)
+	})
+
+	// ---- 2b. every event the master's watchers emit is handled by the state manager ---------------------------------------------
+	// (F46: the deletion of a shard assignment was emitted and silently counted as handled; a late ShardAssignmentChanged that
+	// is delivered after the database's config deletion then leaves a dropped database in the state for ever)
+	c.Rule("EXHAUSTIVE", smgrT+".processEvent{event types emitted by the master's state machines}", func() {
+		evT := "coordinator/discovery.Event.Type"
+		names := map[string]string{} // constant value -> name
+		for _, pk := range p.Pkgs {
+			if eng.ShortPkg(pk.PkgPath) != "coordinator/discovery" {
+				continue
+			}
+			sc := pk.Types.Scope()
+			for _, n := range sc.Names() {
+				if k, ok := sc.Lookup(n).(*types.Const); ok && strings.HasSuffix(k.Type().String(), "discovery.EventType") {
+					names[k.Val().ExactString()] = n
+				}
+			}
+		}
+		if len(names) < 6 {
+			c.Undecided("unresolved anchor: expected >= 6 discovery.EventType constants, found %d", len(names))
+		}
+		emitted := map[string]ssa.Instruction{}
+		for _, fn := range p.FuncsWithPrefix("coordinator/master.StateMachineFactory.") {
+			for _, s := range p.SitesDirect(fn, eng.StoreField(evT)) {
+				v, _ := storedValue(s.Instr)
+				k, ok := v.(*ssa.Const)
+				if !ok || k.Value == nil {
+					c.Check(false, "emitted-type-is-a-constant:"+p.InstrPos(s.Instr), s.Instr, fn, "a state machine emits events of a constant type", "type "+p.Desc(v))
+					continue
+				}
+				emitted[k.Value.ExactString()] = s.Instr
+			}
+		}
+		if len(emitted) < 6 {
+			c.Undecided("unresolved anchor: expected >= 6 event types emitted by the master's state machines, found %d", len(emitted))
+		}
+		pe := c.Fn(smgrT + ".processEvent")
+		handled := map[string]bool{}
+		handler := map[string]*ssa.Function{}
+		for _, b := range eng.BlocksT(pe) {
+			for _, in := range b.Instrs {
+				bo, ok := in.(*ssa.BinOp)
+				if !ok || bo.Op != token.EQL {
+					continue
+				}
+				for _, pair := range [][2]ssa.Value{{bo.X, bo.Y}, {bo.Y, bo.X}} {
+					k, isC := pair[1].(*ssa.Const)
+					if !isC || k.Value == nil || !eng.DependsOnField(pair[0], evT) {
+						continue
+					}
+					// the case does something: its true edge leads to a call of a handler
+					te, _ := eng.BoolCheckEdges(pe, bo)
+					for _, e := range te {
+						blk := e.B.Succs[e.Succ]
+						for _, x := range blk.Instrs {
+							if cl, isCall := x.(*ssa.Call); isCall && cl.Common().StaticCallee() != nil && strings.HasPrefix(p.FuncKey(cl.Common().StaticCallee()), smgrT+".on") {
+								handled[k.Value.ExactString()] = true
+								handler[k.Value.ExactString()] = cl.Common().StaticCallee()
+							}
+						}
+					}
+				}
+			}
+		}
+		var vals []string
+		for v := range emitted {
+			vals = append(vals, v)
+		}
+		sort.Strings(vals)
+		for _, v := range vals {
+			n := names[v]
+			if n == "" {
+				n = "EventType(" + v + ")"
+			}
+			c.Check(handled[v], "handled:"+n, emitted[v], pe, "an event type the master's watchers emit ("+n+") has a case in processEvent that calls a handler", "no case: the event is dropped and counted as handled")
+			// the two deletions of a database's keys (config, shard assignment) can take the database out of the published state
+			if h := handler[v]; h != nil && (n == "DatabaseConfigDeletion" || n == "ShardAssignmentDeletion") {
+				drops := p.Sites(h, invokeOn("", "DropDatabase"))
+				c.Check(len(drops) > 0, "deletion-drops-state:"+n, nil, h, "the handler of "+n+" removes the database from the storage state", "no state.DropDatabase(name)")
+				for i, d := range drops {
+					_, skip := eng.PathExists(eng.PathQuery{Fn: h, After: d.Instr,
+						Target:  func(in ssa.Instruction) bool { _, isRet := in.(*ssa.Return); return isRet },
+						Blocked: func(in ssa.Instruction) bool { return eng.CallTo(smgrT+".syncState")(p, in) }})
+					c.Check(!skip, fmt.Sprintf("deletion-publishes-state:%s[%d]", n, i), d.Instr, h, "after the database left the storage state the state is published (syncState) on every path", "a return is reachable without syncState")
+				}
+			}
+		}
 	})
 
 	// ---- 3. the elector ---------------------------------------------------------------------------------------------------
